@@ -13,6 +13,7 @@ structure AState where
                                                -- end is signed time + tolerance, moved out by a reload that raises the
                                                -- tolerance while the window is still open
   acceptedRaw : List String := []               -- every accepted signed request, verbatim (headers, method, path, body)
+  targets : Nat := 1                            -- messages one accepted request on the hmac route stands for
   n : Nat := 0
   bad : Nat := 0
 
@@ -34,6 +35,7 @@ def step (st : AState) (line : String) : AState × String :=
     match str j "k" with
     | "acfg" =>
       ({ st with cfg := cfgOf (obj j "hmac"), auth := { tol := (cfgOf (obj j "hmac")).tol }, accepted := [], acceptedRaw := [],
+                 targets := if has j "targets" then nat j "targets" else 1,
                  users := (arr j "users").map (fun p => match asArr p with | [a, b] => (asStr a, asStr b) | _ => ("", "")) }, "ok")
     | "areload" =>
       -- the authenticator's nonce cache survives a reload; a longer tolerance extends the remembered windows and sets the
@@ -41,7 +43,9 @@ def step (st : AState) (line : String) : AState × String :=
       let tol' := if has j "tol" then int j "tol" else st.cfg.tol
       let delta := if tol' > st.cfg.tol then tol' - st.cfg.tol else 0
       let now := int j "now"
-      ({ st with cfg := { st.cfg with tol := tol' }, auth := reloadR st.auth now tol',
+      -- secrets are loaded again by every successful reload: what a file: reference holds now is what counts
+      let direct' := if has j "direct" && bool j "ok" then (strs j "direct").map bytesOfHex else st.cfg.direct
+      ({ st with cfg := { st.cfg with tol := tol', direct := direct' }, auth := reloadR st.auth now tol',
                  accepted := st.accepted.map (fun (n, t0, e) => (n, t0, if now ≤ e then e + delta else e)) }, "ok")
     | "areq" =>
       let now := int j "now"
@@ -65,19 +69,24 @@ def step (st : AState) (line : String) : AState × String :=
         -- instant (inside its window the nonce stops it, outside the tolerance check does)
         let raw := s!"{rq.sig}|{rq.ts}|{rq.nonce}|{rq.method}|{rq.path}|{str j "body"}"
         let twice := st.acceptedRaw.contains raw
+        -- the request got past authentication: answered 202, or 503 because the harness made the store refuse a message of
+        -- the fan-out (the nonce is spent either way)
+        let storeFail := bool j "storeFail"
+        let reached := status == 202 || (storeFail && status == 503)
         let st' := { st with auth := auth',
-                             acceptedRaw := if status == 202 && !twice then raw :: st.acceptedRaw else st.acceptedRaw,
-                             accepted := if status == 202 then (nonce, tOK.getD 0, tOK.getD 0 + st.cfg.tol) :: st.accepted else st.accepted }
-        if status == 202 && !condOK && !twice then (st', s!"PROP C08,C17 accepted-without-valid-hmac in={tag}")
-        else if status == 202 && replay then (st', s!"PROP C09 replay-accepted in={tag}")
-        else if status == 202 && reopened then (st', s!"PROP C09 replay-accepted-after-tolerance-raised-by-reload in={tag}")
-        else if status == 202 && twice then (st', s!"PROP C09,C08 captured-request-enqueued-twice in={tag}")
-        else if status != 202 && enq != 0 then (st', s!"PROP C08 denied-request-had-effect in={tag}")
-        else if status == 202 && enq != 1 then (st', s!"DIVERGE enqueue-count in={tag}")
+                             acceptedRaw := if reached && !twice then raw :: st.acceptedRaw else st.acceptedRaw,
+                             accepted := if reached then (nonce, tOK.getD 0, tOK.getD 0 + st.cfg.tol) :: st.accepted else st.accepted }
+        if reached && !condOK && !twice then (st', s!"PROP C08,C17 accepted-without-valid-hmac in={tag}")
+        else if reached && replay then (st', s!"PROP C09 replay-accepted in={tag}")
+        else if reached && reopened then (st', s!"PROP C09 replay-accepted-after-tolerance-raised-by-reload in={tag}")
+        else if reached && twice then (st', s!"PROP C09,C08 captured-request-enqueued-twice in={tag}")
+        else if !reached && enq != 0 then (st', s!"PROP C08 denied-request-had-effect in={tag}")
+        else if status == 202 && enq != st.targets then (st', s!"DIVERGE enqueue-count in={tag} targets={st.targets}")
+        else if storeFail && status == 503 && enq != 1 then (st', s!"DIVERGE enqueue-count-after-injected-store-refusal in={tag}")
         else if ok && status == 401 then
           -- fail-closed, so no C08 violation; but a request valid under a secret valid at its signed time was rejected
           (st', s!"PROP C17 valid-request-rejected in={tag}")
-        else if ok != (status == 202) then (st', s!"DIVERGE hmac in={tag} model={ok} status={status}")
+        else if ok != reached then (st', s!"DIVERGE hmac in={tag} model={ok} status={status}")
         else (st', "ok")
       | "basic" =>
         let c := obj j "cred"
